@@ -1,6 +1,10 @@
 /-! The write-ahead log's framing (sst/src/log.rs): `_append` / `append_split` / `true_up` and
-    `LogIterator::{next_header, next_frame, next}`.  The block size `B`, the header codec and the
-    CRC are parameters; `H` is `HEADER_MAX_SIZE`. -/
+    `LogIterator::{next_header, next_frame, next, true_up}`.  The block size `B`, the header codec
+    and the CRC are parameters; `H` is `HEADER_MAX_SIZE`.
+
+    The reader's `true_up` (after a zero header-length byte, and after a `FIRST` frame) reads the
+    bytes up to the block boundary and refuses anything but zeros (`padZero`; the repair of D-11:
+    as found it sought to the boundary without looking, see `Blue.Damage.nextHeaderAsFound`). -/
 namespace Blue.Log
 
 structure Hdr where
@@ -58,6 +62,11 @@ inductive R (α : Type) where
   | err
 deriving Repr
 
+/-- the reader's `true_up` from `off` to the boundary `t`: it reads the `t - off` bytes it is about
+    to skip — fewer if the file ends first, which is not an error — and every byte it got must be
+    the zero the writer's `true_up` pads with (`corruption-true-up-padding-not-zero` otherwise) -/
+def padZero (file : List Nat) (off t : Nat) : Bool := (slice file off (t - off)).all (· == 0)
+
 /-- `next_header`: skips padding, returns the header and the offset after it -/
 def nextHeader (file : List Nat) : Nat → Nat → R (Hdr × Nat)
   | 0, _ => .err
@@ -67,7 +76,9 @@ def nextHeader (file : List Nat) : Nat → Nat → R (Hdr × Nat)
     | some hsz =>
       if hsz = 0 then
         let t := trueUp P (off + 1)
-        if t - (off + 1) > P.H then .err else nextHeader file f t
+        if t - (off + 1) > P.H then .err
+        else if !padZero file (off + 1) t then .err
+        else nextHeader file f t
       else if hsz > P.H then .err
       else if off + 1 + hsz > file.length then .err
       else match P.decH (slice file (off + 1) hsz) with
@@ -95,6 +106,7 @@ def nextBatch (file : List Nat) (fuel off : Nat) : R (List Nat × Nat) :=
     else if h.disc = FIRST then
       let t := trueUp P off'
       if t - off' > P.H then .err
+      else if !padZero file off' t then .err
       else match nextFrame P file fuel t with
         | .ok (h2, p2, off'') => if h2.disc = SECOND then .ok (p ++ p2, off'') else .err
         | _ => .err
